@@ -24,9 +24,10 @@ type Spec struct {
 	MaxPts         int
 	Extra          func(w *World) // extra threads (pollers, ...) spawned after the server
 	Check          func(x *vrt.Sched, w *World) []Finding
-	ClientsIdle    bool // clients that "stay" never act again: a wait for them is a wait for the environment
-	ReplacedUnbind bool // the scenario replaces the unbind route before any Unbind is sent
-	NoRaces        bool // the scenario leaves the precondition of C15 (e.g. Router called while serving): races are not reported
+	ClientsIdle    bool   // clients that "stay" never act again: a wait for them is a wait for the environment
+	ReplacedUnbind bool   // the scenario replaces the unbind route before any Unbind is sent
+	WriterRaceIs   string // a race on a connection's buffered writer in this scenario also counts for this property (two connections share a writer)
+	NoRaces        bool   // the scenario leaves the precondition of C15 (e.g. Router called while serving): races are not reported
 }
 
 type ConnSpec struct {
